@@ -25,6 +25,7 @@ func C01(r *core.Report) {
 	c01Offsets(r)
 	c01SectionLength(r)
 	c01CodecWidths(r)
+	c01CodecRoundTrip(r)
 	c01SharedWrites(r)
 	c01WriterLifecycle(r)
 	r.Floor("C01.R1", 25)
@@ -296,30 +297,7 @@ func c01CodecWidths(r *core.Report) {
 				}
 				r.Check(okLen, rule, k+"#reader-accepts-declared-size", posP(r, fb.Pos()), fmt.Sprintf("the value decoder accepts exactly %d bytes", declared),
 					"the value decoder does not check for exactly the declared value size")
-				// split points: BtoUint48(buf[:6]) / BtoUint24(buf[6:]) widths
-				var parts []int64
-				ast.Inspect(fb.Body, func(n ast.Node) bool {
-					c, ok := n.(*ast.CallExpr)
-					if !ok {
-						return true
-					}
-					if w := fixedWidth(core.CalleeName(info, c)); w > 0 && len(c.Args) == 1 {
-						if se, ok := core.Unparen(c.Args[0]).(*ast.SliceExpr); ok {
-							lo, hi := int64(0), declared
-							if se.Low != nil {
-								lo, _ = core.ConstInt(info, se.Low)
-							}
-							if se.High != nil {
-								hi, _ = core.ConstInt(info, se.High)
-							}
-							parts = append(parts, hi-lo, int64(w))
-						}
-					}
-					return true
-				})
-				okSplit := len(parts) == 4 && parts[0] == parts[1] && parts[2] == parts[3] && parts[0]+parts[2] == declared
-				r.Check(okSplit, rule, k+"#reader-split=writer-pieces", posP(r, fb.Pos()), "the reader splits the value at the same widths the writer packed (6 + 3)",
-					fmt.Sprintf("the reader's split of the value (%v) does not match the decode widths / the declared size %d", parts, declared))
+				// how the 9 bytes are split is decided bit by bit in c01CodecRoundTrip (Put value -> FromBytes)
 			}
 			// Put guards the packed ranges
 			info := put.Pkg.TypesInfo
@@ -604,5 +582,79 @@ func checkReadSectionLength(r *core.Report, rule string) {
 				}
 			}
 		}
+	}
+}
+
+// c01CodecRoundTrip (R3, bit level): the 48-bit offset / 24-bit size codec reproduces its inputs. The encoders (the value
+// assembled by the index writers' Put, and OffsetAndSize.Bytes used by the look-up cache) are evaluated on symbolic
+// inputs with the bit-provenance evaluator and the bytes are fed to OffsetAndSize.FromBytes; every decoded bit must be
+// the input bit of the same position (and zero above the stored width).
+func c01CodecRoundTrip(r *core.Report) {
+	const rule = "C01.R3"
+	p := r.Prog
+	fb := r.Anchor(rule, "indexes.(*OffsetAndSize).FromBytes")
+	if fb == nil {
+		return
+	}
+	decode := func(enc bval) (bval, bval, string) {
+		_, note := evalBitFunc(p, fb, nil, []bval{enc}, 0)
+		if lastBitEnv == nil {
+			return bval{}, bval{}, note
+		}
+		off, ok1 := lastBitEnv.fieldNamed("Offset")
+		size, ok2 := lastBitEnv.fieldNamed("Size")
+		if !ok1 || !ok2 {
+			return bval{}, bval{}, "the decoder does not assign Offset and Size; " + note
+		}
+		return off, size, note
+	}
+	check := func(key string, at string, enc bval, encNote string) {
+		if !enc.ok || !enc.slice {
+			r.Undecided(rule, key, at, "the encoder could not be evaluated bit by bit: "+encNote)
+			return
+		}
+		off, size, note := decode(enc)
+		if !off.ok || !size.ok {
+			r.Undecided(rule, key, at, "the decoder could not be evaluated bit by bit: "+note)
+			return
+		}
+		ok1, why1 := roundTripBits(off, "offset", 48)
+		ok2, why2 := roundTripBits(size, "size", 24)
+		why := why1
+		if why == "" {
+			why = why2
+		}
+		r.Check(ok1 && ok2, rule, key, at, fmt.Sprintf("the %d encoded bytes decode to exactly the 48-bit offset and the 24-bit size that were encoded (bit-provenance evaluation)", len(enc.bits)/8),
+			"the offset/size codec does not round-trip: "+why+" - a stored location is read back as a different offset or length")
+	}
+	// (a) cache codec: OffsetAndSize.Bytes -> FromBytes
+	if bf := r.Anchor(rule, "indexes.(OffsetAndSize).Bytes"); bf != nil {
+		res, note := evalBitFunc(p, bf, map[string]bval{"Offset": maskInputs(symInt("offset", 64), 48), "Size": maskInputs(symInt("size", 64), 24)}, nil, 0)
+		var enc bval
+		if len(res) > 0 {
+			enc = res[0]
+		}
+		check("OffsetAndSize#Bytes-FromBytes-round-trip", posP(r, bf.Pos()), enc, note)
+	}
+	// (b) index writers: the value assembled by Put
+	for _, k := range []string{"CidToOffsetAndSize", "PubkeyToOffsetAndSize"} {
+		put := r.Anchor(rule, "indexes.(*"+k+"_Writer).Put")
+		if put == nil {
+			continue
+		}
+		args := []bval{{ok: false}, maskInputs(symInt("offset", 64), 48), maskInputs(symInt("size", 64), 24)}
+		_, note := evalBitFunc(p, put, nil, args, 0)
+		var enc bval
+		// the value handed to Insert
+		for _, cs := range p.Calls(put) {
+			if cs.Name == "compactindexsized.(*Builder).Insert" && len(cs.Call.Args) == 2 {
+				if id, ok := core.Unparen(cs.Call.Args[1]).(*ast.Ident); ok && lastBitEnv != nil {
+					if v, ok := lastBitEnv.varNamed(id.Name); ok {
+						enc = v
+					}
+				}
+			}
+		}
+		check(k+"#Put-value-FromBytes-round-trip", posP(r, put.Pos()), enc, note)
 	}
 }
